@@ -393,10 +393,12 @@ def overlap(A, B):
 
     A, B: iterables (will be converted to sets). na values will be dropped first
     """
+    # dtype=object: keep the elements as they are (a list mixing large
+    # integers and floats would otherwise be cast to float64)
     if type(A) != pd.Series:
-        A = pd.Series(list(A))
+        A = pd.Series(list(A), dtype=object)
     if type(B) != pd.Series:
-        B = pd.Series(list(B))
+        B = pd.Series(list(B), dtype=object)
     A = A.dropna()
     B = B.dropna()
     A = set(A)
@@ -413,10 +415,12 @@ def overlap_coefficient(A, B):
 
     A, B: iterables (will be converted to sets). na values will be dropped first
     """
+    # dtype=object: keep the elements as they are (a list mixing large
+    # integers and floats would otherwise be cast to float64)
     if type(A) != pd.Series:
-        A = pd.Series(list(A))
+        A = pd.Series(list(A), dtype=object)
     if type(B) != pd.Series:
-        B = pd.Series(list(B))
+        B = pd.Series(list(B), dtype=object)
     A = A.dropna()
     B = B.dropna()
     A = set(A)
